@@ -79,6 +79,43 @@ func stateStores(c *eng.Ctx, fn *ssa.Function) map[ssa.Instruction]int64 {
 	return out
 }
 
+// remoteAckOf: where IsReady obtains the follower's last acknowledged index - the helper getLastAckIdxFromReplica (its first
+// result) or, when that helper was inlined, the GetReplicaAckIndex RPC (the AckIndex field of its response).  Returns the
+// call site and predicates for "is that value" / "is that value + 1".
+func remoteAckOf(c *eng.Ctx, f *ssa.Function) (eng.Site, func(ssa.Value) bool, func(ssa.Value) bool) {
+	p := c.P
+	var site eng.Site
+	viaHelper := false
+	if hs := p.SitesDirect(f, eng.CallTo(rrT+".getLastAckIdxFromReplica")); len(hs) == 1 {
+		site, viaHelper = hs[0], true
+	} else {
+		site = c.One(f, invokeOn(".replicaCli", "GetReplicaAckIndex"), "the follower's ack index (getLastAckIdxFromReplica / replicaCli.GetReplicaAckIndex)")
+	}
+	isRemote := func(v ssa.Value) bool {
+		v = eng.Unwrap(v)
+		if viaHelper {
+			e, ok := v.(*ssa.Extract)
+			return ok && e.Tuple == site.Instr.(ssa.Value) && e.Index == 0
+		}
+		// resp.AckIndex of this call's response
+		u, ok := v.(*ssa.UnOp)
+		if !ok {
+			return false
+		}
+		fa, ok := u.X.(*ssa.FieldAddr)
+		if !ok || !strings.HasSuffix(eng.FieldKeyOfAddr(fa), ".AckIndex") {
+			return false
+		}
+		e, ok := eng.Unwrap(fa.X).(*ssa.Extract)
+		return ok && e.Tuple == site.Instr.(ssa.Value) && e.Index == 0
+	}
+	isNext := func(v ssa.Value) bool {
+		base, k := eng.SplitConstOffset(eng.Unwrap(v))
+		return k == 1 && isRemote(base)
+	}
+	return site, isRemote, isNext
+}
+
 func runC08(c *eng.Ctx) {
 	p := c.P
 	handshakeBaselineIsTheGroupAck(c)
@@ -312,7 +349,10 @@ func runC08(c *eng.Ctx) {
 		if len(readyStores) < 3 || len(failStores) < 4 {
 			c.Undecided("IsReady: %d ready stores, %d failure stores (expected >=3, >=4)", len(readyStores), len(failStores))
 		}
-		isRemoteNext := func(d string, _ ssa.Value) bool { return strings.Contains(d, "getLastAckIdxFromReplica()#0+1)") }
+		lastAck, isRemoteV, isRemoteNextV := remoteAckOf(c, f)
+		isRemoteNext := func(d string, v ssa.Value) bool {
+			return isRemoteNextV(v) || strings.Contains(d, "getLastAckIdxFromReplica()#0+1)")
+		}
 		isLocalReplica := func(_ string, v ssa.Value) bool {
 			cl, ok := v.(*ssa.Call)
 			return ok && inList(strings.Join(p.CalleeKeys(cl), ""), []string{rpT + ".ReplicaIndex"})
@@ -363,7 +403,7 @@ func runC08(c *eng.Ctx) {
 				"the channel becomes ready only when the leader's next replica index equals the follower's next append index (compared directly, or both reset to the leader's ack+1 by a successful reset RPC)", detail)
 		}
 		// every RPC error edge stores failure and returns false
-		rpcs := p.Sites(f, eng.Any(invokeOn(".cliFct", "CreateReplicaServiceClient"), eng.CallTo(rrT+".getLastAckIdxFromReplica"), invokeOn(".replicaCli", "Reset")))
+		rpcs := p.SitesDirect(f, eng.Any(invokeOn(".cliFct", "CreateReplicaServiceClient"), eng.CallTo(rrT+".getLastAckIdxFromReplica"), invokeOn(".replicaCli", "Reset"), invokeOn(".replicaCli", "GetReplicaAckIndex")))
 		if len(rpcs) < 3 {
 			c.Undecided("expected 3 fallible calls in IsReady, found %d", len(rpcs))
 		}
@@ -390,12 +430,9 @@ func runC08(c *eng.Ctx) {
 			}
 		}
 		// resets of the leader's replica index never move it beyond its own append position
-		lastAck := c.One(f, eng.CallTo(rrT+".getLastAckIdxFromReplica"), "getLastAckIdxFromReplica")
+		_ = lastAck
 		rappend := p.Sites(f, eng.CallTo(rpT+".ResetAppendIndex"))
-		isRemote := func(v ssa.Value) bool {
-			e, ok := v.(*ssa.Extract)
-			return ok && e.Tuple == lastAck.Instr.(ssa.Value) && e.Index == 0
-		}
+		isRemote := isRemoteV
 		isAppendNext := func(v ssa.Value) bool {
 			cl, ok := v.(*ssa.Call)
 			return ok && inList(strings.Join(p.CalleeKeys(cl), ""), []string{rpT + ".AppendIndex"})
@@ -551,7 +588,8 @@ func runC08(c *eng.Ctx) {
 	c.Rule("ORDER", rrT+".IsReady{the handshake obtains its client from the factory}", func() {
 		f := c.Fn(rrT + ".IsReady")
 		mk := c.Some(f, invokeOn(".cliFct", "CreateReplicaServiceClient"), "cliFct.CreateReplicaServiceClient(node)")
-		for i, g := range c.Some(f, eng.AnyCallTo(rrT+".getLastAckIdxFromReplica"), "getLastAckIdxFromReplica()") {
+		hs, _, _ := remoteAckOf(c, f)
+		for i, g := range []eng.Site{hs} {
 			c.Check(eng.DominatedBy(f, g.Instr, mk, nil), fmt.Sprintf("client-before-handshake[%d]", i), g.Instr, f,
 				"every handshake is made over a client taken from the factory in this very handshake", "a path reaches the handshake with the client of an earlier period")
 		}
